@@ -88,7 +88,7 @@ class Loop(Harness):
         if isinstance(r, Exc):
             return {'exc': r}
         row, b = db['kex'][self.alg], before[self.alg]
-        return {'size': kex.dh_modulus_sizes().get(self.alg), 'calls': calls, 'fails': list(row[1]) if len(row) > 1 else [], 'warns': list(row[2]) if len(row) > 2 else [],
+        return {'master_changed': M.ssh2_kexdb.SSH2_KexDB.MASTER_DB['kex'] != before, 'size': kex.dh_modulus_sizes().get(self.alg), 'calls': calls, 'fails': list(row[1]) if len(row) > 1 else [], 'warns': list(row[2]) if len(row) > 2 else [],
                 'infos': list(row[3]) if len(row) > 3 else [], 'b_fails': list(b[1]) if len(b) > 1 else [], 'b_warns': list(b[2]) if len(b) > 2 else [],
                 'others_changed': [k for k in db['kex'] if k != self.alg and db['kex'][k] != before[k]]}
 
@@ -131,6 +131,8 @@ class Loop(Harness):
         yield 'at-most-9-probes', len(obs['calls']) <= 9 and all(c[0] == self.alg for c in obs['calls'])
         yield 'probe-sequence-is-the-fixed-one', all((c[1], c[2], c[3]) in PROBES + [SECOND] for c in obs['calls'])
         yield 'no-other-row-touched', obs['others_changed'] == []
+        # the size notes go into this scan's copy of the table; the master table (what the next scan starts from) stays as it was
+        yield 'master-table-untouched', not obs['master_changed']
 
 
 class FlakyLoop(Loop):
@@ -229,7 +231,7 @@ class LoopReal(Loop):
         if isinstance(r, Exc):
             return {'exc': r}
         row, b = db['kex'][self.alg], before[self.alg]
-        return {'size': kex.dh_modulus_sizes().get(self.alg), 'calls': calls, 'fails': list(row[1]) if len(row) > 1 else [], 'warns': list(row[2]) if len(row) > 2 else [],
+        return {'master_changed': M.ssh2_kexdb.SSH2_KexDB.MASTER_DB['kex'] != before, 'size': kex.dh_modulus_sizes().get(self.alg), 'calls': calls, 'fails': list(row[1]) if len(row) > 1 else [], 'warns': list(row[2]) if len(row) > 2 else [],
                 'infos': list(row[3]) if len(row) > 3 else [], 'b_fails': list(b[1]) if len(b) > 1 else [], 'b_warns': list(b[2]) if len(b) > 2 else [],
                 'others_changed': [k for k in db['kex'] if k != self.alg and db['kex'][k] != before[k]]}
 
